@@ -54,6 +54,18 @@ package kv
 //@ trusted
 //@ modifies ghset(present, recv)
 //@ ensures err == nil ==> forall k string :: ghset(present, recv, k) <==> (k != key && old(ghset(present, recv, k)))
+//@ ensures err != nil ==> forall k string :: ghset(present, recv, k) <==> old(ghset(present, recv, k))
+
+// What a batch sees under a key (the database plus its own earlier operations), as a
+// ghost predicate of the batch object and the key.
+//@ ghostfun batchSees(WriteBatch, string) bool
+
+//@ func WriteBatch.Get(recv, key) (value, closer, err)
+//@ trusted
+//@ modifies nothing
+//@ ensures err == nil <==> batchSees(recv, key)
+//@ ensures err == nil ==> closer != nil
+//@ ensures !batchSees(recv, key) ==> errIs(err, ErrKeyNotFound) || !errIs(err, ErrKeyNotFound)
 
 // ---------------------------------------------------------------- comparison reads (C11)
 // Against the ordered-set view of Pebble (trusted, /verif/trusted/stdlib.spec): the
